@@ -20,6 +20,7 @@ from pyvc.builtins import cls_code, typeof_f, sym_isinstance, ok
 from pyvc.contracts import eval_clause, oblige, _parse_expr, Contract
 from contracts.common_conn import CONN, CONN_FIELDS, conn_specs
 
+sersize_f = z3.Function("serialized_size", BytesS, IntS)     # len() of a SerializeToString() result, as an abstract integer
 noexc = z3.Const("noexc", ObjS)                 # Future.exc value of a future without exception
 enum_f = z3.Function("enum", ObjSetS, ObjSeqS)  # iteration order of a set (A-SETITER)
 
@@ -622,6 +623,13 @@ def install(eng, check_tags=None):
             if snap is None:
                 raise Unsupported("payload handed to write_packets is not the serialisation of a message")
             batch.append((tid, snap))
+        tags_ = getattr(eng_, "conn_check_tags", None)
+        if tags_ is not None and "C02" in tags_:
+            # (C02, Noise framing) the 16-bit length fields of a Noise frame must be able to carry the real lengths; the helper may be a
+            # Noise helper, so the obligation is stated for every batch handed to the helper
+            # (payload sizes are abstract integers here: the solver must not be asked to build a 64 KiB sequence as counter-model)
+            fit = [z3.And(as_int(p.items[0]) >= 0, as_int(p.items[0]) < 65536, sersize_f(p.items[1].e) >= 0, sersize_f(p.items[1].e) + 20 < 65536) for p in pk]
+            oblige(eng_, st, simp(z3.And(*fit)) if fit else z3.BoolVal(True), "noise-frame-fields-fit-16-bits", kind="property", tags=["C02"])
         out = []
         for cls in (OSError, RuntimeError, ConnectionResetError):
             s2 = st.clone()
